@@ -427,6 +427,7 @@ def tab_cli(run):
     tab_cli_derive_when(run, pc)
     tab_cli_distinct_outputs(run, pc)
     tab_cli_derive_not_any_input(run, pc)
+    tab_cli_missing_values(run, pc)
     # 5. print xor write per group
     tab_cli_groups(run)
 
@@ -1726,3 +1727,35 @@ def tab_cli_escapes_gated(run, R="TAB-cli"):
     run.check(bool(esc) and gated and n >= 5 and not bad, R, R + "|color|escapes-gated", gate[0].loc() if gate else "-",
               "every escape sequence reaches the output through add_style, which asks use_colors (%d use(s) of %d constant(s))" % (n, len(esc)),
               "an escape sequence is written without asking `use_colors` (%s): `--color=off` still produces ANSI escapes in the diagnostics" % (", ".join(bad) or "gate not found: add_style no longer tests use_colors"))
+
+
+def tab_cli_missing_values(run, pc, R="TAB-cli"):
+    """an option that takes a value does something only with that value: every option declared with an optional argument
+    (`HasArg::Maybe`) is asked `opt_present` in parse_command, and being present without a value ends in error + Err - the option
+    is never silently ignored (`customasm main.asm -o` writing the derived name, `-t` running with the default budget)"""
+    from rules_sym import deep as _deep
+    mk = run.anchor(R, "driver::make_opts")
+    if mk is None:
+        return
+    maybe = [[x for x in (r["short"], r["long"]) if x] for r in getopts_registrations(mk) if r["hasarg"] == "Maybe"]
+    n, bad = 0, []
+    for names in maybe:
+        n += 1
+        ok = False
+        for bi, t in pc.calls():
+            if not (t.get("callee") or "").endswith("Matches::opt_present") or len(t["args"]) < 2:
+                continue
+            lit = cstr(pc, t["args"][1])
+            if lit not in names:
+                continue
+            bt = T.bool_test(pc, t)
+            if bt is None:
+                continue
+            reg = T.reach_following_consts(pc, bt[0])
+            # on the `present` edge an error + Err is reachable before anything else happens with the group
+            if report_error_in_region(pc, reg) and err_return_in_region(pc, reg):
+                ok = True
+        if not ok:
+            bad.append("/".join(names))
+    run.check(n >= 2 and not bad, R, R + "|value-options|missing-value-rejected", pc.loc(), "every option with an optional argument is rejected when it is given without one (%d option(s))" % n,
+              "parse_command looks only at the value of %s: given without a value the option is silently ignored (`customasm main.asm -o` writes the derived name and exits 0)" % (", ".join("`%s`" % b for b in bad) or "options that were not found in make_opts"))
